@@ -5,6 +5,10 @@ import traceback
 from .. import deckref as dr, deck as dk, symx
 from ..symx import ENG, check_sat
 from ..sem import mcnp as ref
+from ..common import load_known, match_known
+
+_KNOWN = load_known()
+MAX_FRESH_VIOLATIONS = 4      # per deck: once that many replayed violations are in hand the deck is settled
 
 
 def run_deck(prop, name, deck, pre, flags=None, what=('regions', 'compo', 'valid'), expect_exception=None,
@@ -77,6 +81,11 @@ def run_deck(prop, name, deck, pre, flags=None, what=('regions', 'compo', 'valid
             res['samples'].append(s)
         if path_hook is not None:
             path_hook(path, res)
+        fresh = [v for v in res['violations'] if match_known(prop, v.get('signature', {}), _KNOWN) is None]
+        if len(fresh) >= MAX_FRESH_VIOLATIONS:
+            # every one of them was replayed on the real converter; the remaining paths cannot change the verdict
+            res['truncated_after_violations'] = True
+            break
     res['queries'] = ENG.nqueries - q0
     res['solver_s'] = ENG.solver_s - s0
     res['wall'] = time.time() - t0
